@@ -10,6 +10,7 @@
    call sites on unexplored runs are assumed (the call sites are enumerated
    from the source on every run, GenSites.v). *)
 From GV Require Import Lib.Trace Model.Arith Model.Pool Proofs.PoolProofs.
+Open Scope string_scope.
 Open Scope Z_scope.
 
 (* A slice obtained from the pool has exactly the requested length, a capacity
@@ -121,6 +122,17 @@ Theorem C12_double_put_aliases :
     iv_overlap (region_iv r1) (region_iv zone) = true.
 Proof. exact (conj zone_history_undisciplined double_put_aliases). Qed.
 Print Assumptions C12_double_put_aliases.
+
+(* Call sites: every use of the two pools listed in the table (and therefore,
+   by the per-run obligation GenSites.sites_ok, every use in the current
+   source) is a Get or a Put, and every Put carries the reason why the donated
+   memory is given up by its owner in the same step. *)
+Theorem C12_discipline_of_sites : forall f fn callee arg w, In ((f, fn, callee, arg), w) site_table ->
+  (w = GetSite /\ (callee = "byteslice.Get" \/ callee = "ringbuffer.Get")) \/
+  ((exists r, w = PutOwnedDropped r \/ w = PutApiContract r) /\
+   (callee = "byteslice.Put" \/ callee = "ringbuffer.Put")).
+Proof. exact discipline_of_sites. Qed.
+Print Assumptions C12_discipline_of_sites.
 
 (* non-vacuity *)
 Example C12_ex_disciplined : disciplined init ex_history /\ List.length (ledger (final init ex_history)) = 7%nat.
